@@ -356,7 +356,9 @@ func (c *Conn) nextFrame() (int, MessageType, []byte, bool, bool, bool, error) {
 		}
 
 		ml := 0
-		if c.message != nil {
+		if c.message != nil && opcode < CloseMessage {
+			// the payload of a control frame between the fragments of
+			// a message is not part of that message.
 			ml = len(*c.message)
 		}
 		if bodyLen > int64(math.MaxInt64-maxFrameHeadLen-ml) {
